@@ -869,6 +869,9 @@ func extraCommand(cmd string, args []string) bool {
 	case "binaddr":
 		runBinAddr(args)
 		return true
+	case "binrestart":
+		runBinRestart(args)
+		return true
 	case "binconn":
 		runBinConn(args)
 		return true
